@@ -353,3 +353,34 @@ def replay(ctx, path):
         if not ok:
             report_rejected(ctx, trace, bad, why, d["seed"], d["ntraces"], d["nops"], d["n"])
     return ctx.finish(rule="replay of one recorded violation", evaluations=1, distinct_nontrivial=1)
+
+
+MANIFEST = {
+    "engine": "sparsevec",
+    "spec": "spec/SparseVector.tla",
+    "engine_text": "SparseVecContract.tla (contract: dense model, iterator positions, must/taint sharing of a slice), "
+                   "SparseVector.tla (mechanism transcribed from vector_sparse_template.in: value map, index key set, "
+                   "skip(), AT, Swap, Permute, Sort, ReverseOrder, SLICE, APPEND, joint iteration, arithmetic; product "
+                   "with the contract), SparseVectorTrace.tla (trace validation); Go driver harness/cmd/sparsevec",
+    "technique": "TLA+ contract + mechanism model checked by TLC; one replay case per transition of the model's state "
+                 "graph (plus simulated deeper histories) executed on the real sparse vectors of all nine element types "
+                 "and on sparse matrices; recorded real histories validated by a TLC trace specification",
+    "text": "TLC exhaustively checks that the transcribed sparse-vector mechanism refines the dense contract (all "
+            "histories over length <= 3/4 with values -1,0,1, one or two live iterators, a slice living next to its "
+            "parent), every transition of that state graph is replayed on the real SparseInt8/16/32/64/Int, "
+            "SparseFloat32/64 and SparseReal32/64 vectors (generic and concrete upper-case methods alternate) and on "
+            "sparse matrices of matching size, comparing after every call Dim(), every element read, the call's result "
+            "(iterator position, iteration sequences) and the private map/index invariants (no nil placeholder, every "
+            "non-zero cell indexed, keys in range), and after the last call all read accessors, live iterator "
+            "positions and continuations, a fresh iteration and String(); longer histories over length 4-6 come from "
+            "TLC simulation; seeded random histories of 300 operations over length 16 for every element type (vectors "
+            "and 4x4 matrices incl. SwapRows/SwapColumns) recorded from the real code are accepted by the contract's "
+            "trace specification (binding self-test: four kinds of corruption are rejected). The pre-fix behaviours "
+            "(Swap placeholder, Slice placeholder, stale iterators) are kept as switchable deviations and TLC must "
+            "find their counterexamples. Bounded model checking plus conformance; not a proof for unbounded lengths.",
+    "note": "Trusted: TLC, CommunityModules Json, the Go driver's projection (reflection on the private map and index), "
+            "Go runtime, the AVL index contract checked by C19. Dense operand vectors expose a joint-iterator defect "
+            "owned by C03: accepted only when the receiver equals the modelled deviation (known finding). "
+            "Bounds are echoed in evidence (coverage.bounds).",
+    "design_ref": "DESIGN.md section 5 (C11), section 4 (SparseVector.tla), appendix A.6",
+}
